@@ -258,6 +258,28 @@ impl std::ops::Add for Scad {
     }
 }
 
+/// Writes a string as an OpenSCAD string literal: OpenSCAD knows the escapes
+/// `\"`, `\\`, `\n`, `\t`, `\r` (and `\x`, `\u` with a fixed number of hex digits), not Rust's `\u{..}`.
+struct ScadStr<'a>(&'a str);
+
+impl std::fmt::Display for ScadStr<'_> {
+    fn fmt(&self, f: &mut std::fmt::Formatter<'_>) -> std::fmt::Result {
+        use std::fmt::Write;
+        f.write_char('"')?;
+        for c in self.0.chars() {
+            match c {
+                '\\' => f.write_str("\\\\")?,
+                '"' => f.write_str("\\\"")?,
+                '\n' => f.write_str("\\n")?,
+                '\t' => f.write_str("\\t")?,
+                '\r' => f.write_str("\\r")?,
+                c => f.write_char(c)?,
+            }
+        }
+        f.write_char('"')
+    }
+}
+
 /// Since we are outputting text we leverage the Display trait to format output.
 impl std::fmt::Display for Scad {
     fn fmt(&self, f: &mut std::fmt::Formatter<'_>) -> std::fmt::Result {
@@ -327,22 +349,22 @@ impl std::fmt::Display for Scad {
                 script,
                 fn_,
             } => {
-                write!(f, "text(text={:?}, ", text)?;
+                write!(f, "text(text={}, ", ScadStr(text))?;
                 write!(f, "size={}, ", size)?;
-                write!(f, "font={:?}, ", font)?;
+                write!(f, "font={}, ", ScadStr(font))?;
                 write!(f, "halign=\"{:?}\", ", halign)?;
                 write!(f, "valign=\"{:?}\", ", valign)?;
                 write!(f, "spacing={}, ", spacing)?;
                 write!(f, "direction=\"{:?}\", ", direction)?;
-                write!(f, "language={:?}, ", language)?;
-                write!(f, "script={:?}", script)?;
+                write!(f, "language={}, ", ScadStr(language))?;
+                write!(f, "script={}", ScadStr(script))?;
                 if let Some(fn_) = fn_ {
                     write!(f, ", $fn={}", fn_)?;
                 }
                 write!(f, ");")?;
             }
             ScadOp::Import { file, convexity } => {
-                write!(f, "import(file={:?}, convexity={});", file, convexity)?;
+                write!(f, "import(file={}, convexity={});", ScadStr(file), convexity)?;
             }
             ScadOp::Projection { cut } => {
                 writeln!(f, "projection(cut={}) {{", cut)?;
@@ -453,8 +475,11 @@ impl std::fmt::Display for Scad {
             } => {
                 write!(
                     f,
-                    "surface(file={:?}, center={}, invert={}, convexity={});",
-                    file, center, invert, convexity
+                    "surface(file={}, center={}, invert={}, convexity={});",
+                    ScadStr(file),
+                    center,
+                    invert,
+                    convexity
                 )?;
             }
             ScadOp::Translate { v } => {
@@ -513,7 +538,7 @@ impl std::fmt::Display for Scad {
                     }
                     writeln!(f, ") {{")?;
                 } else if let Some(hex) = hex {
-                    writeln!(f, "color({:?}) {{", hex)?;
+                    writeln!(f, "color({}) {{", ScadStr(hex))?;
                 }
             }
             ScadOp::Offset { r, delta, chamfer } => {
